@@ -133,7 +133,7 @@ def writer_reader(prog, run, reads):
         for p in part:
             svd_calls.add(astq.dump(p.value))
         el = astq.index_elts(st.targets[0])
-        line_first = len(el) == 3 and not isinstance(el[0], ast.Slice) and all(astq.is_full_slice(e) for e in el[1:])
+        line_first = 1 <= len(el) <= 3 and not isinstance(el[0], ast.Slice) and all(astq.is_full_slice(e) or (isinstance(e, ast.Constant) and e.value is Ellipsis) for e in el[1:])
         ok = which == 0 and has_T and has_conj and line_first
         layout = "rows" if (which == 0 and has_T) or (which == 2 and not has_T) else "cols"
         run.ob("R-vector", w.qual, "stored vectors = conj(U)^T of the line's svd (vector k in row k)", ok,
@@ -164,7 +164,20 @@ def writer_reader(prog, run, reads):
     run.ob("R-vector", w.qual, "values and vectors come from the same svd call", len(svd_calls) == 1, f"{len(svd_calls)} distinct svd call(s)", str(len(svd_calls)), file=fw, node=w.node)
     # moveaxis(line axis 0 -> 2) for both returned arrays
     rx = [astq.expr_at(w, rets[-1], e) for e in rets[-1].value.elts[:2]]
-    okmv = all(isinstance(x, ast.Call) and astq.callee_name(prog, w, x) == "numpy.moveaxis" and [astq.src(a) for a in x.args[1:3]] == ["0", "2"] for x in rx)
+    def mv(x):
+        """True if x = moveaxis(A, 0, last) of a 3-d array; False if another move; None if not a moveaxis call"""
+        if not (isinstance(x, ast.Call) and astq.callee_name(prog, w, x) == "numpy.moveaxis"):
+            return None
+        s_, d_ = astq.kwarg(x, "source", 1), astq.kwarg(x, "destination", 2)
+        if not (isinstance(s_, ast.Constant) and isinstance(d_, (ast.Constant, ast.UnaryOp))):
+            return None
+        try:
+            dv = ast.literal_eval(d_)
+        except Exception:
+            return None
+        return s_.value == 0 and dv in (2, -1)
+    mvs = [mv(x) for x in rx]
+    okmv = False if any(m is False for m in mvs) else (None if any(m is None for m in mvs) else True)
     run.ob("R-vector", w.qual, "line axis moved last for values and vectors alike", okmv, f"returns `{astq.src(rets[-1].value.elts[0])}`, `{astq.src(rets[-1].value.elts[1])}` via moveaxis(.., 0, 2)" if okmv else "returned arrays are not both moveaxis(.., 0, 2)",
                "layout", file=fw, node=rets[-1])
     # readers
